@@ -463,7 +463,7 @@ pub fn property() -> Property {
             Box::new(GenPart {
                 name: "random-interleavings",
                 rule: "see property rule",
-                cases: (600_000, 3_000_000),
+                cases: (600_000, 15_000_000),
                 fuzz_decode: Some(crate::fuzzdec::c07_case),
                 strategy: gen_strategy,
                 check: check_scenario,
